@@ -300,6 +300,16 @@ fn e3_cross_types(out: &mut Vec<Edge>) {
             out.push(e);
         }
     }
+    // two and three sources over structs with disjoint fields, every order, complete and incomplete
+    for srcs in ["...pa, ...qb", "...qb, ...pa", "...pa, ...qb, ...rc", "...rc, ...qb, ...pa", "...qb, ...rc, ...pa", "...pa, ...pa", "...pa, ...st"] {
+        for base in ["W { z: 1, ", "W { r: s, z: 1, ", "W { ", "W { p: 1, z: 1, "] {
+            out.push(fun(
+                "int",
+                &format!("let pa = P {{ p: x }} let qb = Q {{ q: b }} let rc = R {{ r: s }} let v = {base}{srcs} }} return saturating_add(v.p, v.z)"),
+                "struct_composition",
+            ));
+        }
+    }
     // a global constant struct that leaves a field out
     for usage in ["return gs.a", "if gs.b { return 1 } return 0", "let w = gs substruct S2 return 0"] {
         out.push(Edge {
